@@ -710,6 +710,10 @@ def check(ctx):
     from . import c06
     with ctx.shared({'C06': 'C03.4'}):
         c06._single_membership(ctx)
+    # shared with C08.6: the state the placement guards read is the state
+    # that was last requested (no request is dropped on the way)
+    from . import c08
+    c08.state_stored(ctx, rule='C03.3')
 
 
 _S = 'lib/python/treadmill/scheduler/__init__.py'
